@@ -48,9 +48,6 @@ theorem elementary_bool (t : Item) (h : t.ty = "Bool") : ∀ R, elementaryTypeNa
 
 /-! ### one declaration -/
 
-theorem comma_miss (t : Item) (ts : List Item) (h : t.ty ≠ "Comma") : comma (t :: ts) = none := by
-  rw [comma]; exact bind_none _ _ _ (tok_miss _ _ _ h)
-
 /-- a single name in front of `:` -/
 theorem var1List_one (n c : Item) (T : List Item) (hn : n.ty = "Identifier") (hc : c.ty = "Colon") :
     var1List (n :: c :: T) = some ([.a (txt n)], c :: T) := by
